@@ -923,9 +923,22 @@ func registerSQL(e *Engine) {
 	I[qmPkg+"Where"] = func(p *Path, fn *ssa.Function, a []Value) Value {
 		return &IfaceVal{T: opaqueType("qm.where"), V: &StructVal{F: []Value{a[0], a[1]}}}
 	}
-	I["github.com/volatiletech/sqlboiler/v4/boil.Infer"] = func(p *Path, fn *ssa.Function, a []Value) Value {
-		return p.E.zero(fn.Signature.Results().At(0).Type())
+	// boil.Columns{Kind, Cols}: kinds as in sqlboiler (none 0, infer 1, whitelist 2, greylist 3, blacklist 4)
+	boilCols := func(kind int) Intrinsic {
+		return func(p *Path, fn *ssa.Function, a []Value) Value {
+			res := p.E.zero(fn.Signature.Results().At(0).Type()).(*StructVal)
+			res.F[0] = BVC(64, uint64(kind))
+			if len(a) > 0 {
+				res.F[1] = a[0]
+			}
+			return res
+		}
 	}
+	I["github.com/volatiletech/sqlboiler/v4/boil.None"] = boilCols(0)
+	I["github.com/volatiletech/sqlboiler/v4/boil.Infer"] = boilCols(1)
+	I["github.com/volatiletech/sqlboiler/v4/boil.Whitelist"] = boilCols(2)
+	I["github.com/volatiletech/sqlboiler/v4/boil.Greylist"] = boilCols(3)
+	I["github.com/volatiletech/sqlboiler/v4/boil.Blacklist"] = boilCols(4)
 	// models.Headers(mods...) -> headerQuery carrying the mods
 	I[M+".Headers"] = func(p *Path, fn *ssa.Function, a []Value) Value {
 		res := p.E.zero(fn.Signature.Results().At(0).Type()).(*StructVal)
@@ -1054,9 +1067,47 @@ func registerSQL(e *Engine) {
 		t := p.tableOf(a[2])
 		t.writes++
 		h := a[0].(*Pointer).load().(*StructVal)
+		// which columns the statement sets (sqlboiler: infer = all non-key columns, whitelist = the listed ones,
+		// blacklist = all but the listed ones, greylist = inferred plus listed)
+		write := map[int]bool{}
+		for _, ci := range t.col {
+			write[ci] = true
+		}
+		if cv, ok := a[len(a)-1].(*StructVal); ok && len(cv.F) == 2 {
+			kind := int(concInt(p, cv.F[0], "boil.Columns kind"))
+			var listed []int
+			if sl, ok := cv.F[1].(*SliceVal); ok && !sl.IsNil() {
+				arr := sl.Arr()
+				for j := 0; j < sl.Len; j++ {
+					name := concStr(p, arr.Get(sl.Off+j), "boil column name")
+					ci, ok := t.col[name]
+					if !ok {
+						return TupleVal{BVC(64, 0), p.errVal("models: unable to update headers row: no such column: " + name)}
+					}
+					listed = append(listed, ci)
+				}
+			}
+			switch kind {
+			case 0:
+				p.unsupported("sql: Update with boil.None()")
+			case 2:
+				write = map[int]bool{}
+				for _, ci := range listed {
+					write[ci] = true
+				}
+			case 4:
+				for _, ci := range listed {
+					delete(write, ci)
+				}
+			}
+		}
 		for i, r := range t.rows {
 			if p.Branch(pkEq(p, t, r, h)) {
-				nr := copyVal(h).(*StructVal)
+				nr := copyVal(r).(*StructVal)
+				hv := copyVal(h).(*StructVal)
+				for ci := range write {
+					nr.F[ci] = hv.F[ci]
+				}
 				t.rows[i] = nr
 				return TupleVal{BVC(64, 1), NilIface}
 			}
